@@ -150,9 +150,13 @@ def r2(R2, cfg, F):
     if not wb:
         R2.missing(cfg, 'utils::private::wrap')
     else:
+        # (normal form) Ok(guard) => guard, Err(poison) => poison.into_inner(); nothing else, nothing that can panic
         cs = [c for c in wb.calls()]
         names = [c.callee.best if c.callee else '?' for c in cs]
-        ok = len(cs) == 1 and names[0] == 'std::result::Result::<T, E>::unwrap_or_else' and 'PoisonError::<T>::into_inner' in (cs[0].args[1].get('text') or '')
+        ok = len(cs) == 1 and names[0] == 'std::sync::PoisonError::<T>::into_inner' and cs[0].target is not None \
+            and common.deep_path(wb, cs[0].args[0]) == ['arg1', 'as:Err', '0'] and cs[0].dest['l'] == 0 and not cs[0].dest['p']
+        rets = [st for _, _, st in wb.assigns() if st['place']['l'] == 0 and not st['place']['p']]
+        ok = ok and len(rets) >= 1 and all(st['rv']['k'] == 'use' and common.deep_path(wb, st['rv']['op']) == ['arg1', 'as:Ok', '0'] for st in rets)
         R2.check(ok, cfg, wb.path, 'wrap=unwrap_or_else(PoisonError::into_inner)', 'wrap() must ignore poisoning without panicking; it calls %s' % names, wb.loc())
     for c in F.calls_to(r'^std::result::Result::<T, E>::(unwrap|expect)$|^std::sync::(LockResult|PoisonError)'):
         if re.search(r'LockResult|PoisonError|Guard<', ' '.join(c.callee.args or [])) and not c.exp:
